@@ -118,7 +118,7 @@ pub(super) fn normalize_frequencies(raw_frequencies: &RawFrequencies) -> Frequen
             continue;
         }
 
-        let normalized_frequency = f * u32::from(SCALING_FACTOR) / sum;
+        let normalized_frequency = u64::from(f) * u64::from(SCALING_FACTOR) / u64::from(sum);
         // SAFETY: `normalized_frequency <= SCALING_FACTOR`.
         *g = (normalized_frequency as u16).max(1);
 
@@ -127,8 +127,15 @@ pub(super) fn normalize_frequencies(raw_frequencies: &RawFrequencies) -> Frequen
 
     if normalized_sum < SCALING_FACTOR {
         normalized_frequencies[max_index] += SCALING_FACTOR - normalized_sum;
-    } else if normalized_sum > SCALING_FACTOR {
-        normalized_frequencies[max_index] -= normalized_sum - SCALING_FACTOR;
+    } else {
+        // Rare symbols are rounded up to 1, which can exceed the total by more than the most
+        // frequent symbol holds. Take the excess from the largest frequencies, one at a time.
+        for _ in SCALING_FACTOR..normalized_sum {
+            // SAFETY: The sum is > the alphabet size, so the largest frequency is > 1.
+            if let Some(g) = normalized_frequencies.iter_mut().max() {
+                *g -= 1;
+            }
+        }
     }
 
     normalized_frequencies
